@@ -134,11 +134,115 @@ fn authorize_partial(req: &J) -> J {
     out
 }
 
+/// TPE on `policies` (schema: entity P, R; action a) with principal unknown and resource = R::"r"; returns every view
+/// of the response as printed policies so that they can be compared.
+fn tpe_views(req: &J) -> J {
+    use cedar_policy::{EntityId, PartialEntities, PartialEntityUid, PartialRequest, PolicyId, Schema};
+    let (schema, _) = match Schema::from_cedarschema_str(
+        "entity P { n: Long }; entity R; action a appliesTo { principal: P, resource: R };",
+    ) {
+        Ok(s) => s,
+        Err(e) => return json!({"input_error": e.to_string()}),
+    };
+    let entities = match Entities::from_json_value(
+        json!([
+            {"uid": {"type": "P", "id": "p"}, "attrs": {"n": 1}, "parents": []},
+            {"uid": {"type": "R", "id": "r"}, "attrs": {}, "parents": []},
+        ]),
+        Some(&schema),
+    ) {
+        Ok(e) => e,
+        Err(e) => return json!({"input_error": e.to_string()}),
+    };
+    let preq = match PartialRequest::new(
+        PartialEntityUid::new("P".parse().unwrap(), None),
+        r#"Action::"a""#.parse().unwrap(),
+        PartialEntityUid::new("R".parse().unwrap(), Some(EntityId::new("r"))),
+        None,
+        &schema,
+    ) {
+        Ok(r) => r,
+        Err(e) => return json!({"input_error": e.to_string()}),
+    };
+    let pe = match PartialEntities::from_concrete(entities.clone(), &schema) {
+        Ok(p) => p,
+        Err(e) => return json!({"input_error": e.to_string()}),
+    };
+    let pset = match PolicySet::from_str(req["policies"].as_str().unwrap_or("")) {
+        Ok(p) => p,
+        Err(e) => return json!({"parse_error": e.to_string()}),
+    };
+    let resp = match pset.tpe(&preq, &pe, &schema) {
+        Ok(r) => r,
+        Err(e) => return json!({"tpe_error": e.to_string()}),
+    };
+    let norm = |s: String| s.split_whitespace().collect::<Vec<_>>().join(" ");
+    let mut policies: Vec<String> = resp.policies().map(|p| format!("{}: {}", p.id(), norm(p.to_string()))).collect();
+    policies.sort();
+    let ps = resp.policy_set();
+    let mut set: Vec<String> = ps.policies().map(|p| format!("{}: {}", p.id(), norm(p.to_string()))).collect();
+    set.sort();
+    let mut by_id: Vec<String> = vec![];
+    for p in pset.policies() {
+        if let Some(q) = resp.get_policy(&PolicyId::new(p.id().to_string())) {
+            by_id.push(format!("{}: {}", q.id(), norm(q.to_string())));
+        }
+    }
+    by_id.sort();
+    let mut reason: Option<Vec<String>> = None;
+    if resp.decision().is_some() {
+        let mut v: Vec<String> = resp.reason().map(|r| r.map(|p| p.to_string()).collect()).unwrap_or_default();
+        v.sort();
+        reason = Some(v);
+    }
+    let ids = |it: Vec<String>| {
+        let mut v = it;
+        v.sort();
+        v
+    };
+    // reauthorize with the completion principal = P::"p"
+    let creq = Request::new(
+        r#"P::"p""#.parse().unwrap(),
+        r#"Action::"a""#.parse().unwrap(),
+        r#"R::"r""#.parse().unwrap(),
+        Context::empty(),
+        Some(&schema),
+    )
+    .unwrap();
+    let re = match resp.reauthorize(&creq, &entities) {
+        Ok(r) => {
+            let mut rs: Vec<String> = r.diagnostics().reason().map(|p| p.to_string()).collect();
+            rs.sort();
+            json!({"decision": format!("{:?}", r.decision()), "reasons": rs})
+        }
+        Err(e) => json!({"error": e.to_string()}),
+    };
+    let scratch = Authorizer::new().is_authorized(&creq, &pset, &entities);
+    let mut srs: Vec<String> = scratch.diagnostics().reason().map(|p| p.to_string()).collect();
+    srs.sort();
+    json!({
+        "decision": resp.decision().map(|d| format!("{d:?}")),
+        "reason": reason,
+        "policies": policies, "policy_set": set, "get_policy": by_id,
+        "true_permits": ids(resp.true_permits().map(|p| p.to_string()).collect()),
+        "false_permits": ids(resp.false_permits().map(|p| p.to_string()).collect()),
+        "error_permits": ids(resp.error_permits().map(|p| p.to_string()).collect()),
+        "residual_permits": ids(resp.residual_permits().map(|p| p.to_string()).collect()),
+        "true_forbids": ids(resp.true_forbids().map(|p| p.to_string()).collect()),
+        "false_forbids": ids(resp.false_forbids().map(|p| p.to_string()).collect()),
+        "error_forbids": ids(resp.error_forbids().map(|p| p.to_string()).collect()),
+        "residual_forbids": ids(resp.residual_forbids().map(|p| p.to_string()).collect()),
+        "reauthorize": re,
+        "from_scratch": {"decision": format!("{:?}", scratch.decision()), "reasons": srs},
+    })
+}
+
 fn handle(req: &J) -> J {
     match req["op"].as_str().unwrap_or("") {
         "eval" => eval(req),
         "authorize" => authorize(req),
         "authorize_partial" => authorize_partial(req),
+        "tpe_views" => tpe_views(req),
         other => json!({"unknown_op": other}),
     }
 }
